@@ -14,7 +14,11 @@ Hand-written transition system for `experiment.runtime.control.Controller` +
 * `Op.fin c`   the controller thread runs `finishedCheck` for the queued notification of `c`
                (stop the stage on failure, add to `comp_done`);
 * `Op.kill`    `killController` → `kill_all_components`;
-* `Op.tick c`  the 5 s poll of `c`'s state observable (changes nothing that the controller sees).
+* `Op.tick c`  the 5 s poll of `c`'s state observable (changes nothing that the controller sees);
+* `Op.next`    one turn of the stage loop of `elaunch.Run`: `Controller.run()` has returned for the
+               current stage (its loop saw no active component of the stage) and did not raise, or it
+               raised and the stage has `continue-on-error`; `Controller.initialise(next stage)`
+               makes the next stage current and resets `stop_executing`.  Not enabled otherwise.
 
 Components are numbered topologically (`preds c` are `< c`, see `Wf.WF`); `order` is the
 iteration order of `graph.nodes` which `_schedule`, `kill_all_components` and
@@ -56,6 +60,8 @@ structure Wf where
   lastStage : Nat := 0
   /-- `Controller._max_resubmission_attempts` -/
   resubCap : Nat := 5
+  /-- stage option `continue-on-error` (read by the stage loop of `elaunch.Run`) -/
+  contOnErr : Nat → Bool := fun _ => false
 
 /-- well-formedness: topological numbering, `order` enumerates exactly the components -/
 structure Wf.WF (wf : Wf) : Prop where
@@ -105,7 +111,7 @@ structure St where
   /-- ghost: one entry per first launch (`ComponentState.run()` by the scheduler), newest last -/
   log : List (Nat × List (Nat × View)) := []
 
-inductive Op | sched | exit (c : Nat) | fin (c : Nat) | pm (c : Nat) | kill | tick (c : Nat)
+inductive Op | sched | exit (c : Nat) | fin (c : Nat) | pm (c : Nat) | kill | tick (c : Nat) | next
   deriving DecidableEq, Repr
 
 def init : St := { comp := fun _ => {}, done := fun _ => false }
@@ -251,26 +257,7 @@ def schedPass (wf : Wf) (s : St) : St :=
   if r.1.stop then r.1 else
   r.2.foldl (runComp wf) (r.2.foldl stageIn r.1)
 
-def step (wf : Wf) (s : St) : Op → St
-  | .sched => schedPass wf s
-  | .exit c => taskExit wf s c
-  | .fin c => deliverFin wf s c
-  | .pm c => deliverPM wf s c
-  | .kill => killAll wf s
-  | .tick _ => s
-
-def run (wf : Wf) (ops : List Op) : St := ops.foldl (step wf) init
-
-/-- true state of a component as `ComponentState.state` reports it -/
-inductive CState | running | postmortem | final (f : Fin3)
-  deriving DecidableEq, Repr
-
-def cstate (cs : CompS) : CState :=
-  match cs.ctrl with
-  | some f => .final f
-  | none => if cs.exit.isSome then .postmortem else .running
-
-/-! ## main loop of `Controller.run()` -/
+/-! ## main loop of `Controller.run()` and the stage loop of `elaunch.Run` -/
 
 def comps (wf : Wf) : List Nat := List.range wf.n
 
@@ -291,6 +278,50 @@ def verdict (wf : Wf) (s : St) : Verdict :=
   else if s.cur == wf.lastStage &&
       !(mine.any fun c => isLeaf wf c && (s.comp c).ctrl == some .finished) then .noFinishedLeaf
   else .ok
+
+/-- the stage loop goes on to the next stage: the loop of `run()` has ended, there is a next stage,
+and `run()` returned normally or the stage is marked `continue-on-error`
+(`FinalStageNoFinishedLeafComponents` can only be raised for the last stage) -/
+def canAdvance (wf : Wf) (s : St) : Bool :=
+  stageDone wf s && decide (s.cur < wf.lastStage) && (verdict wf s == .ok || wf.contOnErr s.cur)
+
+/-- `Controller.initialise(next stage)` when the controller started from stage 0: no component is
+touched; `currentStage` moves on and `stop_executing` is reset -/
+def advance (wf : Wf) (s : St) : St :=
+  if canAdvance wf s then { s with cur := s.cur + 1, stop := false } else s
+
+def step (wf : Wf) (s : St) : Op → St
+  | .sched => schedPass wf s
+  | .exit c => taskExit wf s c
+  | .fin c => deliverFin wf s c
+  | .pm c => deliverPM wf s c
+  | .kill => killAll wf s
+  | .tick _ => s
+  | .next => advance wf s
+
+def run (wf : Wf) (ops : List Op) : St := ops.foldl (step wf) init
+
+/-- ghost history of the stage loop: `(stage, what run() reported for it)` for every stage that the
+loop has left behind, oldest first -/
+abbrev Reports := List (Nat × Verdict)
+
+def stepR (wf : Wf) (a : St × Reports) (op : Op) : St × Reports :=
+  (step wf a.1 op,
+   if op = .next && canAdvance wf a.1 then a.2 ++ [(a.1.cur, verdict wf a.1)] else a.2)
+
+/-- `run` together with the reports of the completed stages -/
+def runR (wf : Wf) (ops : List Op) : St × Reports := ops.foldl (stepR wf) (init, [])
+
+/-- true state of a component as `ComponentState.state` reports it -/
+inductive CState | running | postmortem | final (f : Fin3)
+  deriving DecidableEq, Repr
+
+def cstate (cs : CompS) : CState :=
+  match cs.ctrl with
+  | some f => .final f
+  | none => if cs.exit.isSome then .postmortem else .running
+
+/-! ## quiescence -/
 
 /-- no operation other than stuttering is enabled: no live task, nothing queued, and the
 scheduler has nothing to do -/
